@@ -42,6 +42,7 @@ pub fn gen_params(rng: &mut Rng, seed: u64, base_ts: u64) -> ChainParams {
         n_types: rng.range(0, 3) as usize,
         base_ts,
         always_success: false,
+        secp: false,
     }
 }
 
